@@ -454,7 +454,9 @@ class _Table:
         conns = []
         for info in self.client_info:
             c = info.get('conn')
+            cth = th.get(f'client{self.suffix}{info["idx"]}')
             entry = {'idx': info['idx'], 'seat': info['seat'], 'kind': info['kind'],
+                     'finished': cth is not None and cth.state == 'done',
                      'wire': info['mangler'].wire if 'mangler' in info else [],
                      'got': info.get('got'),
                      'exc': info['exc'], 'c2s': [], 's2c': [], 'server_closed': False,
